@@ -4,6 +4,13 @@ import "verif/checker/internal/core"
 
 func init() {
 	register(&Prop{
+		ID:    "C07",
+		Rules: []*Rule{rHide, rHideKeep, rBarrierCtor, rWrapDual},
+		Explain: "Decides, for all compositions and after decoding (decoders rebuild the same types; opaque fallbacks keep the payload inside an Any), that the error stored behind a barrier or as a secondary error cannot reach any Return, call, comparison or store other than printing, encoding and the safe-details walk (so no Unwrap/Cause/Is/As/accessor can see it); that it stays printed in %+v and folded into SafeDetails(); that every constructor which hides a parameter never also exposes it; and that Cause()/Unwrap() of every wrapper return the same, visible, field. " +
+			"NOT decided: 'Handled keeps the hidden text exactly' (redact rendering = Error()), behaviour of foreign types embedded in the hidden content.",
+		Trusted: []string{"go/ssa"},
+	})
+	register(&Prop{
 		ID:    "C06",
 		Rules: []*Rule{rEsc, rBufFlag, rVerbDispatch, {Name: "R-TAINT/redactable", Doc: "the S3 sub-class of R-TAINT that concerns well-formedness: every conversion of a plain string/[]byte to redact.RedactableString/RedactableBytes takes a value that was BUILT as a redactable string (redact.Sprint*/Redact(), a typed RedactableString input, or the wire slot an encoder fills from one) - never a merely safe plain string, whose marker runes would not be escaped",
 			Run: func(c *core.Ctx) { runTaintFiltered(c, func(s *Sink) bool { return s.Mode == "redactable" }) }}},
